@@ -208,16 +208,19 @@ func (rt *runtime) cmplEvaluateNodeCallExpression(node *nodeCallExpression, with
 
 	eval := false // Whether this call is a (candidate for) direct call to eval
 	name := ""
+	// A direct call needs a reference with an environment record as base (ES5 15.1.2.1.1), i.e.
+	// the callee is the identifier eval; o.eval(x) and this.eval(x) are indirect.
+	_, calleeIsIdentifier := node.callee.(*nodeIdentifier)
 	if rf := callee.reference(); rf != nil {
 		switch rf := rf.(type) {
 		case *propertyReference:
 			name = rf.name
 			this = objectValue(rf.base)
-			eval = rf.name == "eval" // Possible direct eval
+			eval = calleeIsIdentifier && rf.name == "eval" // Possible direct eval
 		case *stashReference:
 			// TODO ImplicitThisValue
 			name = rf.name
-			eval = rf.name == "eval" // Possible direct eval
+			eval = calleeIsIdentifier && rf.name == "eval" // Possible direct eval
 		default:
 			// FIXME?
 			panic(rt.panicTypeError("unexpected callee type %T to node call expression", rf))
